@@ -11,6 +11,7 @@ import Proofs.Lemmas.InprocAll
 import Proofs.Lemmas.InprocUnaryAll
 import Proofs.Lemmas.HttpServerStream
 import Proofs.Lemmas.Metadata
+import Proofs.Lemmas.HttpUnary
 
 namespace InprocStream
 
@@ -249,3 +250,29 @@ theorem C02_details_codec_sites : detailSitesPaired = true := by decide
 example : b64rawenc [0, 10, 255, 7] = [65, 65, 114, 95, 66, 119] ∧ b64rawdec (b64rawenc [0, 10, 255, 7]) = some [0, 10, 255, 7] := by decide
 
 end Metadata
+
+namespace HttpUnary
+open InprocStream (HErr Reason Res codeOf)
+
+/-- **Unary over HTTP: the caller's outcome is the handler's status.** An error reaches the caller
+    with its own code (a non-nil error never as success: OK is rewritten to Internal, context errors
+    map to Canceled / DeadlineExceeded, other errors to Unknown), whatever HTTP status the renderer
+    chose and whether or not the request context was done. -/
+theorem C02_http_unary_error_outcome (ops : List HOp) (e : HErr) (ctxDone : Bool) :
+    (client (serve ops (.err e) ctxDone).1).result = .status (HttpServerStream.trailerCode (some e)) := by
+  have hne := trailerCode_ne_zero e
+  simp [serve, client, hne]
+
+/-- a response reaches the caller as that response -/
+theorem C02_http_unary_success_outcome (ops : List HOp) (m : Nat) (ctxDone : Bool) :
+    (client (serve ops (.resp m true) ctxDone).1).result = .msg m := by
+  have h200 : Codes.codeFromHttpStatus 200 = 0 := by decide
+  simp [serve, client, h200]
+
+/-- a response that cannot be encoded is reported as an error, never as success -/
+theorem C02_http_unary_unencodable_is_error (ops : List HOp) (m : Nat) (ctxDone : Bool) :
+    ∃ c, c ≠ 0 ∧ (client (serve ops (.resp m false) ctxDone).1).result = .status c := by
+  have h500 : Codes.codeFromHttpStatus 500 ≠ 0 := by decide
+  exact ⟨Codes.codeFromHttpStatus 500, h500, by simp [serve, client, h500]⟩
+
+end HttpUnary
